@@ -2,6 +2,7 @@
 From Coq Require Import List ZArith Bool.
 From Pico Require Import Base.Res Base.Mach Wire.Wire Schema.Types Schema.Scalar Schema.Gen Ref.Ref
   Schema.ScalarProofs Enc.Enc Enc.EncProofs Schema.Conv Schema.Interp.
+From Pico Require Schema.Norm Schema.EncSpec Schema.TEnc Schema.TDec Schema.RoundTrip.
 Import ListNotations.
 Open Scope Z_scope.
 
@@ -29,10 +30,20 @@ Theorem C11_entry_defaults : forall kk vk, (zero_scalar kk, zero_scalar vk) =
   ((if is_bytes_kind kk then VBytes [] else VInt 0), (if is_bytes_kind vk then VBytes [] else VInt 0)).
 Proof. reflexivity. Qed.
 
-(* PARTIAL: round trip / duplicate keys / entry independence for all entry lists and orders are
-   decided per run on all 180 codecs (fresh schema with every key/value pair) against dynamicpb. *)
+(* Any Go map round-trips exactly, for every key/value kind pair and any number of entries: a map field is one slot of
+   the message universe (VMap, entries in the iteration order of that call, keys pairwise distinct), and
+   Unmarshal(Marshal(m)) = m by C03's theorem; zero keys / zero values (omitted on the wire) come back as zero, every
+   entry is decoded independently of the others (map_entry_of starts from the zero pair). Decoding of ARBITRARY entry
+   sequences (any order, duplicate keys overwrite, unknown fields inside entries) is the reference's by T_dec (C02). *)
+Theorem C11_map_round_trip : forall s progs fuel idx fs un m,
+  gen_all s = GOk progs -> TEnc.wf_schema_enc s = true -> RoundTrip.rt_applies s = true -> nth_error s idx = Some m ->
+  EncSpec.msg_ok fuel progs idx (Some (fs, un)) = true -> RoundTrip.rt_ok fuel s idx fs un = true ->
+  exists data, pico_marshal fuel progs idx (fs, un) = Ok data /\
+               pico_unmarshal progs idx data (zero_fields s m, []) = (None, (Norm.norm_fields fuel s idx fs, un)).
+Proof. exact RoundTrip.marshal_unmarshal. Qed.
 
 Example C11_nonvacuous : entry_payload KInt32 KString (VInt 0, VBytes [97]) = [18; 1; 97] /\ entry_payload KSint32 KBool (VInt (-1), VInt 0) = [8; 1].
 Proof. split; vm_compute; reflexivity. Qed.
 
 Print Assumptions C11_entry.
+Print Assumptions C11_map_round_trip.
